@@ -12,7 +12,7 @@ cp -r /repo/src/catii "$SCRATCH/src/"
 rm -f "$SCRATCH"/src/catii/*.so "$SCRATCH"/src/catii/*.c
 (cd "$SCRATCH" && patch -s -p1 < "$PATCH") || { echo "PATCH-FAILED $PATCH"; exit 3; }
 cd "$HERE"
-VERIF_REPO="$SCRATCH" ./check "$PROP" --no-selftest "$@"
+VERIF_REPO="$SCRATCH" VERIF_EVIDENCE_DIR="$SCRATCH/evidence" ./check "$PROP" --no-selftest "$@"
 RC=$?
 echo "MUTANT $(basename "$PATCH") $PROP exit=$RC"
 exit $RC
